@@ -81,6 +81,7 @@ class FnSpec:
         self.nocalls = []
         self.recommends = []
         self.attrs = []
+        self.mutself = False
         self.key = None
         self.src_span = None
         self.gen_span = None
@@ -240,6 +241,8 @@ class Unit:
                 spec.ghost = rest; cur = None
             elif word == 'attr':
                 spec.attrs.append(rest); cur = None
+            elif word == 'mutself':
+                spec.mutself = True; cur = None
             elif word == 'ret':
                 spec.ret = rest; cur = None
             elif word in ('requires', 'ensures'):
@@ -453,6 +456,13 @@ class Unit:
             l['fn'] = spec.key
         gen.rewrite_log += log
 
+        if spec.mutself:
+            # R14: `mut self` (by-value, mutable) is outside the Verus subset: bind it to a local
+            n = len(re.findall(r'\bself\b', body))
+            body = re.sub(r'\bself\b', 'self_', body)
+            body = '{ let mut self_ = self;' + body[1:]
+            gen.rewrite_log.append(dict(rule='R14', file=f, fn=spec.key, before='fn f(mut self ..) { ..self.. }', after='fn f(self ..) { let mut self_ = self; ..self_.. } (%d occurrences)' % n))
+
         # ---- anchored ghost statements ---------------------------------------------
         for where, anchor, lines in spec.anchors:
             cnt = body.count(anchor)
@@ -531,6 +541,8 @@ class Unit:
         if sig is not None:
             hdr = sig
             hdr = re.sub(r'^(\s*)pub(\([a-z]+\))?\s+', r'\1', hdr)
+            if spec.mutself:
+                hdr = re.sub(r'\(\s*mut self\b', '(self', hdr, count=1)
             hmask = code_mask(hdr)
             hp = [m for m in find_code(hdr, hmask, r'\bfn\s+' + re.escape(spec.name) + r'\b')][0]
             j = hp.end()
